@@ -168,18 +168,19 @@ func (t *Teamserver) ListenerRemove(Name string) ([]*Listener, []packager.Packag
 
 			t.Listeners = append(t.Listeners[:i], t.Listeners[i+1:]...)
 
-			for EventID := range t.EventsList {
-				if t.EventsList[EventID].Head.Event == packager.Type.Listener.Type {
-					if t.EventsList[EventID].Body.SubEvent == packager.Type.Listener.Add {
-						if name, ok := t.EventsList[EventID].Body.Info["Name"]; ok {
-							if name == Name {
-								t.EventsList = append(t.EventsList[:EventID], t.EventsList[EventID+1:]...)
-								return t.Listeners, t.EventsList
-							}
-						}
+			// drop every retained Add event of this listener: the teamserver's own
+			// announcement and, when an operator asked for the listener, the recorded
+			// request that precedes it (removing only the first match left the announcement)
+			var kept = make([]packager.Package, 0, len(t.EventsList))
+			for _, Event := range t.EventsList {
+				if Event.Head.Event == packager.Type.Listener.Type && Event.Body.SubEvent == packager.Type.Listener.Add {
+					if name, ok := Event.Body.Info["Name"]; ok && name == Name {
+						continue
 					}
 				}
+				kept = append(kept, Event)
 			}
+			t.EventsList = kept
 
 			return t.Listeners, t.EventsList
 		}
